@@ -110,9 +110,9 @@ var (
 	False = &Term{Op: "bool", Name: "false", Sort: BoolS}
 )
 
-func IntLit(i int64) *Term      { return &Term{Op: "int", Int: big.NewInt(i), Sort: IntS} }
-func BigLit(i *big.Int) *Term   { return &Term{Op: "int", Int: new(big.Int).Set(i), Sort: IntS} }
-func StrLit(s string) *Term     { return &Term{Op: "str", Str: s, Sort: StringS} }
+func IntLit(i int64) *Term    { return &Term{Op: "int", Int: big.NewInt(i), Sort: IntS} }
+func BigLit(i *big.Int) *Term { return &Term{Op: "int", Int: new(big.Int).Set(i), Sort: IntS} }
+func StrLit(s string) *Term   { return &Term{Op: "str", Str: s, Sort: StringS} }
 func BoolLit(b bool) *Term {
 	if b {
 		return True
